@@ -8,7 +8,7 @@
                  unpermute s b is the bit list whose position  i    holds bit s i of b : get (unpermute s b) i = get b (s i).
    Both keep the length; they are mutually inverse; and they commute with single-position updates:
                  upd (permute s b) (s q) v = permute s (upd b q v),      upd (unpermute s b) q v = unpermute s (upd b (s q) v). *)
-From Coq Require Import List Bool Arith Lia.
+From Coq Require Import List Bool Arith Lia Permutation.
 Require Import QG.Base.State.
 Import ListNotations.
 
@@ -44,6 +44,15 @@ Proof.
     - intros y Hy. apply in_map_iff in Hy as (x & <- & Hx). apply in_seq in Hx. apply in_seq. specialize (Hr x). lia. }
   assert (Hin : In r (seq 0 n)) by (apply in_seq; lia).
   apply Inc in Hin. apply in_map_iff in Hin as (i & Hi' & Hin). apply in_seq in Hin. exists i. split; [lia | exact Hi'].
+Qed.
+
+(* the images of 0..n-1 are 0..n-1 in another order *)
+Lemma perm_on_Permutation n s : perm_on n s -> Permutation (map s (seq 0 n)) (seq 0 n).
+Proof.
+  intros [Hr Hi]. apply NoDup_Permutation_bis.
+  - apply NoDup_map_inj_in; [apply seq_NoDup|]. intros x y Hx Hy. apply in_seq in Hx, Hy. apply Hi; lia.
+  - rewrite map_length. lia.
+  - intros y Hy. apply in_map_iff in Hy as (x & <- & Hx). apply in_seq in Hx. apply in_seq. specialize (Hr x). lia.
 Qed.
 
 Lemma inv_of_l n s i : perm_on n s -> i < n -> inv_of n s (s i) = i.
